@@ -7,18 +7,28 @@ import vcore
 
 def describe(sig, lines, rel, info):
     # did replication race with the flush job (a replica step between the last metadata flush and the data commit)?
+    # ... and did a data commit fall between the write and the sequence commit of one replica round?
     racing = False
     since_meta = False
+    done = False
+    inround = False
+    window = False
     for ln in lines[:rel]:
-        if '"ev":"MetaFlush"' in ln:
+        if '"ev":"MetaFlush"' in ln and not done:
             since_meta = True
             racing = False
-        elif '"ev":"ReplicaStep"' in ln and since_meta:
+        elif ('"ev":"ReplicaStep"' in ln or '"ev":"RWrite"' in ln) and since_meta and not done:
             racing = True
         elif '"ev":"FamilyCommit"' in ln:
             if racing:
-                break
-    return "%s:%s" % (sig, "racing-flush" if racing else "no-race")
+                done = True
+            if inround:
+                window = True
+        if '"ev":"RWrite"' in ln:
+            inround = True
+        elif '"ev":"RCommit"' in ln or '"ev":"Crash"' in ln:
+            inround = False
+    return "%s:%s%s" % (sig, "racing-flush" if racing else "no-race", ":commit-window" if window else "")
 
 
 def run(ctx, replay):
@@ -34,10 +44,15 @@ def run(ctx, replay):
     ctx.model_check("MCNodeRecovery", "MCNodeRecovery.cfg", timeout=1200)
     # ... and the code's order does not (the known finding, re-confirmed in the model)
     ctx.model_check("MCNodeRecovery", "MCNodeRecovery_code.cfg", expect="violation", timeout=600)
+    # a data commit between WriteRows and CommitSequence of one replica round: the entry is in the data
+    # file, the recorded sequence is below it -> applied again after a crash (known finding, model side)
+    ctx.model_check("MCNodeRecovery", "MCNodeRecovery_code_reapply.cfg", expect="violation", timeout=600)
+    # the opposite order (sequence committed before the rows are written) loses the entry instead
+    ctx.model_check("MCNodeRecovery", "MCNodeRecovery_dev_commitfirst.cfg", expect="violation", timeout=600)
     tr = os.path.join(ctx.scratch, "node.ndjson")
     scr = os.path.join(ctx.scratch, "scr-node")
     os.makedirs(scr, exist_ok=True)
-    nh, ni = (200, 60) if thorough else (12, 5)
+    nh, ni = (200, 60) if thorough else (10, 4)
     summ, rc, _ = ctx.run_vdrive(["node", "--seed", ctx.seed, "--histories", nh, "--images", ni, "--out", tr, "--scratch", scr], timeout=3000)
     for u in summ["unresolved"]:
         raise vcore.Unresolved("node driver: %s" % u)
@@ -45,7 +60,11 @@ def run(ctx, replay):
         ctx.sample(s)
     ctx.extra["events"] = summ["events"]
     ctx.extra["crash_images_recovered"] = summ["extra"]["images"]
-    vcore.validate_all(ctx, "NodeRecoveryTrace", "NodeRecoveryTrace.cfg", tr, describe=describe, dfs=False, max_rejections=400)
+    # pass 1 -- conformance: every recorded step is a step of the specification and the invariants that hold for
+    # the code's order hold on every state (a trace is examined to its end, no known finding can mask a later step)
+    vcore.validate_all(ctx, "NodeRecoveryTrace", "NodeRecoveryTrace_conf.cfg", tr, describe=describe, dfs=False, max_rejections=400)
+    # pass 2 -- all five invariants on the traces that conform
+    vcore.validate_all(ctx, "NodeRecoveryTrace", "NodeRecoveryTrace.cfg", ctx.accepted_path, describe=describe, dfs=False, max_rejections=400)
 
     lines = vcore.read_lines(tr)
     clean = os.path.join(ctx.scratch, "node-clean.ndjson")
